@@ -30,7 +30,11 @@ open Ferrous Ferrous.Auth
 variable {D R : Type}
 
 /-- The model instantiated with the lists regenerated from the source, and the concrete normalisations. -/
-def tree : Cfg := Cfg.ofTables Gen.preGate Gen.authAllow Code.normLoop Code.normFrame
+def tree : Cfg :=
+  Cfg.ofTables Gen.preGate Gen.authAllow Code.normLoop (Code.normFrame Gen.frameNameTrimmed) Gen.quitEndsBatch
+
+/-- the name as `process_frame` sees it on this tree -/
+abbrev treeNormFrame : Bytes → Bytes := Code.normFrame Gen.frameNameTrimmed
 
 /-- A password-protected server with a canary key, one fresh (unauthenticated) connection. -/
 def witnessServer : Server KS.Store :=
@@ -139,7 +143,7 @@ theorem malformed_requests_refused (cfg : Cfg) (h : Dispatch D R) (s : Server D)
     on the current tree, not to SYNC / PSYNC — is refused. -/
 theorem gate_total_tree (h : Dispatch D R) (s : Server D) (c : Nat) (name : Bytes) (args : List Arg)
     (hpw : s.password.isSome = true) (hst : stateOf s.conns c ≠ some .authenticated)
-    (hallow : Code.normFrame name ∉ [AUTH, PING, QUIT]) (hpre : Code.normLoop name ∉ [SYNC, PSYNC]) :
+    (hallow : treeNormFrame name ∉ [AUTH, PING, QUIT]) (hpre : Code.normLoop name ∉ [SYNC, PSYNC]) :
     ∃ k, Code.processConnectionFrame tree h s c (.cmd name args) = (s, .error k) := by
   refine gate_total tree h s c name args hpw hst ?_ ?_
   · rw [tree_allow_names]; exact hallow
@@ -188,11 +192,11 @@ theorem only_exact_password (cfg : Cfg) (h : Dispatch D R) (s : Server D) (c : N
 theorem only_exact_password_tree (h : Dispatch D R) (s : Server D) (c : Nat) (name : Bytes) (args : List Arg)
     (pw : Bytes) (hpw : s.password = some pw) (hutf : utf8Valid pw = true)
     (hc : stateOf s.conns c = some .connected)
-    (hn1 : Code.normFrame name = AUTH) (hn2 : Code.normLoop name = AUTH) :
+    (hn1 : treeNormFrame name = AUTH) (hn2 : Code.normLoop name = AUTH) :
     stateOf (Code.processConnectionFrame tree h s c (.cmd name args)).1.conns c = some .authenticated
       ↔ args = [some pw] := by
   refine only_exact_password tree h s c name args pw hpw hutf hc ?_ ?_
-  · show findArm tree.allow (Code.normFrame name) = some .auth
+  · show findArm tree.allow (treeNormFrame name) = some .auth
     rw [hn1]; decide
   · show Code.normLoop name ∉ tree.preGate
     rw [hn2]; intro hm; exact absurd (tree_preGate_within _ hm) (by decide)
@@ -433,9 +437,45 @@ example :
     `BLPOP k 0; GET secret` of an unauthenticated connection is two refusals, not a parked GET. -/
 theorem deferral_needs_authentication (cfg : Cfg) {h : Dispatch D R} (hh : Honest h) (s : Server D) (c : Nat)
     (pw : Bytes) (hpw : s.password = some pw) (hc : low (stateOf s.conns c))
-    (reqs : List Req) (hno : ∀ r ∈ reqs, isExactAuth cfg pw r = false) :
+    (reqs : List Req) (hno : ∀ r ∈ reqs, isExactAuth cfg pw r = false)
+    (hq : cfg.quitEndsBatch = true → ∀ r ∈ reqs, Code.isQuit cfg r = false) :
     Code.runFramesD cfg h s c reqs = ((Code.runFrames cfg h s c reqs).1, (Code.runFrames cfg h s c reqs).2, []) :=
-  runFramesD_low hh c pw reqs hno s hpw hc
+  runFramesD_low hh c pw reqs hno hq s hpw hc
+
+/-- `nothing_runs_behind_quit`.  QUIT ends the batch: whatever follows it in the same read — any number of frames, any
+    commands — is neither executed nor answered: the state and the replies are exactly those of the read cut behind the
+    QUIT.  This holds for EVERY connection, authenticated or not, every dispatch and whatever precedes the QUIT; in
+    particular no command parked behind a QUIT can run before (or after) authentication. -/
+theorem nothing_runs_behind_quit (cfg : Cfg) (hq : cfg.quitEndsBatch = true) (h : Dispatch D R) (s : Server D) (c : Nat)
+    (pre : List Req) (q : Req) (hquit : Code.isQuit cfg q = true) (post : List Req) :
+    (Code.runFramesD cfg h s c (pre ++ q :: post)).1 = (Code.runFramesD cfg h s c (pre ++ [q])).1 ∧
+    (Code.runFramesD cfg h s c (pre ++ q :: post)).2.1 = (Code.runFramesD cfg h s c (pre ++ [q])).2.1 ∧
+    (Code.runFramesD cfg h s c (pre ++ q :: post)).2.1.length ≤ pre.length + 1 := by
+  have h1 := runFramesD_behind_quit cfg hq h c q hquit post pre s
+  refine ⟨h1.1, h1.2, ?_⟩
+  rw [h1.2]
+  have := runFramesD_replies_length_le cfg h c (pre ++ [q]) s
+  simpa using this
+
+/-- The tree ends the batch at QUIT (`Gen.quitEndsBatch`), and `process_frame` no longer trims the name, so that the frame
+    loop (QUIT, the pre-gate special cases), the gate and the dispatch all see the same name. -/
+theorem tree_quit_ends_batch_and_names_agree : Gen.quitEndsBatch = true ∧ Gen.frameNameTrimmed = false := by decide
+
+/-- With one normalisation everywhere, a name that the gate lets through as QUIT is the name that ends the batch and closes
+    the connection, and a name with white space around it is neither (it is refused like any unknown command). -/
+theorem tree_gate_and_loop_see_the_same_name (name : Bytes) : tree.normFrame name = tree.normLoop name := by
+  show Code.normFrame Gen.frameNameTrimmed name = Code.normLoop name
+  have : Gen.frameNameTrimmed = false := by decide
+  rw [this]; rfl
+
+/-- Computed on the tree: `PING; QUIT; GET canary; SYNC; PING` from the fresh connection of the witness server answers
+    PONG and +OK and nothing else; the connection is closing; and ` QUIT` / `quit ` (blanks) are refused, do not close. -/
+example :
+    Code.processBatch tree noDispatch witnessServer 1
+        [.cmd PING [], .cmd [113, 117, 105, 116] [], .cmd [71, 69, 84] [some [107]], .cmd SYNC [], .cmd PING []]
+      = ({ witnessServer with conns := [⟨1, .closing⟩] }, [.pong, .ok]) ∧
+    Code.processBatch tree noDispatch witnessServer 1 [.cmd [32, 81, 85, 73, 84] [], .cmd [113, 117, 105, 116, 32] [], .cmd PING []]
+      = (witnessServer, [.error .noauth, .error .noauth, .pong]) := ⟨rfl, rfl⟩
 
 /-- Non-vacuity of the deferring loop: an authenticated connection whose BLPOP blocks keeps the rest back. -/
 example :
@@ -506,7 +546,7 @@ theorem no_access_without_auth_tree_partial {h : Dispatch D R} (hh : Honest h)
     (s : Server D) (pw : Bytes) (hpw : s.password = some pw) (b : Nat) (hb : low (stateOf s.conns b))
     (evs : List Code.Event) (hno : neverAuthenticates tree pw b evs)
     (name : Bytes) (args : List Arg)
-    (hreq : Code.normFrame name ∉ [AUTH, PING, QUIT]) (hdev : Code.normLoop name ∉ [SYNC, PSYNC]) :
+    (hreq : treeNormFrame name ∉ [AUTH, PING, QUIT]) (hdev : Code.normLoop name ∉ [SYNC, PSYNC]) :
     ∃ k, Code.processConnectionFrame tree h (Code.run tree h s evs).1 b (.cmd name args)
           = ((Code.run tree h s evs).1, .error k) := by
   refine no_access_without_auth_partial tree hh s pw hpw b hb evs hno _ ?_ ?_
@@ -518,7 +558,7 @@ theorem no_access_without_auth_tree_partial {h : Dispatch D R} (hh : Honest h)
 theorem no_access_without_auth_tree_fixed (hfix : Gen.preGate = []) {h : Dispatch D R} (hh : Honest h)
     (s : Server D) (pw : Bytes) (hpw : s.password = some pw) (b : Nat) (hb : low (stateOf s.conns b))
     (evs : List Code.Event) (hno : neverAuthenticates tree pw b evs)
-    (name : Bytes) (args : List Arg) (hreq : Code.normFrame name ∉ [AUTH, PING, QUIT]) :
+    (name : Bytes) (args : List Arg) (hreq : treeNormFrame name ∉ [AUTH, PING, QUIT]) :
     ∃ k, Code.processConnectionFrame tree h (Code.run tree h s evs).1 b (.cmd name args)
           = ((Code.run tree h s evs).1, .error k) := by
   refine no_access_without_auth tree ?_ hh s pw hpw b hb evs hno _ ?_
